@@ -20,6 +20,9 @@ use std::{
 };
 
 pub const VERIF: &str = "/verif";
+/// Per-worker cap on stored non-trivial case hashes (distinct_nontrivial is
+/// then a lower bound: cases beyond the cap are not counted as distinct).
+pub const HASH_CAP: usize = 150_000;
 
 #[derive(Clone, Copy, Debug, PartialEq, Eq)]
 pub enum Tier {
@@ -294,8 +297,10 @@ impl Acc {
         let nontrivial = obs.nontrivial;
         if nontrivial {
             self.res.nontrivial += 1;
-            let h = sys::hash_bytes(&serde_json::to_vec(case).unwrap());
-            self.hashes.insert(h);
+            if self.hashes.len() < HASH_CAP {
+                let h = sys::hash_bytes(&serde_json::to_vec(case).unwrap());
+                self.hashes.insert(h);
+            }
         }
         for k in obs.known {
             let n = self.res.known.entry(k.clone()).or_insert(0);
